@@ -18,6 +18,7 @@ import numpy as np
 from glue.core import Data, DataCollection
 from glue.core.component_id import ComponentID
 from glue.core.component_link import ComponentLink
+from glue.core.coordinates import AffineCoordinates
 from glue.core.exceptions import IncompatibleAttribute
 from glue.core import link_helpers as LH
 from glue.core import roi as R
@@ -74,6 +75,9 @@ class TracingSerializer(GlueSerializer):
             for typ in type(obj).mro():
                 if typ in self.pins:
                     v = self.pins[typ]
+                    used = self.trace.setdefault("savers", {})
+                    key = "%s@%d" % (typ.__name__, v)
+                    used[key] = used.get(key, 0) + 1
                     return self.dispatch.get_version(typ, v), v
                 if typ in self.dispatch:
                     break
@@ -157,7 +161,8 @@ def load(text, trace=None):
 # ------------------------------------------------------------------ dataset recipes
 UNITS = [None, None, "m", "cm", "km", "s", "deg"]
 COLORS = ["#aa3311", "red", "#00ff7f", "0.35", "#123456", "blue"]
-ORDER_MODES = ["plain", "plain", "plain", "derived_early", "reorder_first", "reorder_middle", "reversed_chain"]
+ORDER_MODES = ["plain", "plain", "plain", "derived_early", "reorder_first", "reorder_middle", "reversed_chain",
+               "first_overall"]
 COORD_KINDS = [None, None, "identity", "diagonal", "coupled_symmetric", "coupled_triangular", "permuted", "full", "wcs"]
 
 
@@ -319,7 +324,11 @@ def make_dataset(rng, idx, shape, opts, label=None, force=None):
                 d.get_component(d.id[lab]).units = u
                 info["units"][lab] = u
     # derived components of every link flavour
-    for kind in rng.sample(dkinds, rng.randint(0, min(3, len(dkinds)))):
+    chosen = rng.sample(dkinds, rng.randint(0, min(3, len(dkinds))))
+    for kind in force.get("derived", ()):
+        if kind not in chosen:
+            chosen.append(kind)
+    for kind in chosen:
         name = "der_" + kind
         if kind == "binary":
             d.add_component_link(d.id["w"] * 2, name)
@@ -468,7 +477,8 @@ def leaf_domain_ok(kind, ds, k=0, top=True, opts=None):
     general workload keeps three ingredient patterns out, because on the current tree they are known to break the
     *whole* restore in ways that would drown every other observation; each has its own probe (see PROBES):
     slice/pixel states below a composite or on a dataset other than the first, flood fills on a dataset other than
-    the first, parsed-expression states.  `opts["unrestricted"]` lifts that."""
+    the first.  (Parsed-expression states, LinkAligned, LinkSameWithUnits, arithmetic derived columns and derived
+    columns ahead of the coordinates were in that list until they were repaired.)  `opts["unrestricted"]` lifts that."""
     info = ds.info
     opts = opts or {}
     if kind in ("cat_roi", "cat_2d", "cat_multirange", "category"):
@@ -479,8 +489,6 @@ def leaf_domain_ok(kind, ds, k=0, top=True, opts=None):
         return top and k == 0
     if kind == "floodfill":
         return k == 0
-    if kind == "parsed":
-        return False
     return True
 
 
@@ -646,7 +654,8 @@ def sig_classes(sig):
 
 # ------------------------------------------------------------------ link recipes
 LINK_KINDS = ["LinkSame", "LinkSame", "LinkTwoWay", "ComponentLink_fn", "ComponentLink_fn_inverse", "ComponentLink_multi",
-              "ComponentLink_identity", "LinkSame_pixel", "JoinLink", "Celestial", "WCSLink"]
+              "ComponentLink_identity", "ComponentLink_method", "LinkSame_pixel", "JoinLink", "Celestial", "WCSLink",
+              "LinkAligned", "LinkSameWithUnits"]
 CELESTIAL = ["Galactic_to_FK5", "FK4_to_FK5", "ICRS_to_FK5", "Galactic_to_FK4", "ICRS_to_FK4", "ICRS_to_Galactic",
              "GalactocentricToGalactic"]
 
@@ -672,6 +681,11 @@ def make_link(rng, kind, a, b, opts):
                                                                                                "using": "function3"}
     if kind == "ComponentLink_identity":
         return ComponentLink([da.id["i"]], db.id["w"]), {"link": "ComponentLink", "using": "identity"}
+    if kind == "ComponentLink_method":
+        # link functions that are bound methods of a serialisable object (the registered `method` saver)
+        co = AffineCoordinates(np.array([[rng.choice([2.0, 0.5, -1.5]), rng.choice([0.0, 1.0, -3.0])], [0.0, 1.0]]))
+        return ComponentLink([da.id["w"]], db.id["v"], using=co.pixel_to_world_values,
+                             inverse=co.world_to_pixel_values), {"link": "ComponentLink", "using": "bound_method+inverse"}
     if kind == "ComponentLink_lambda":
         return ComponentLink([da.id["w"]], db.id["w"], using=lambda x: x * 3), {"link": "ComponentLink", "using": "lambda"}
     if kind == "JoinLink":
@@ -702,9 +716,12 @@ def make_link(rng, kind, a, b, opts):
             return None
         return LH.LinkAligned(da, db), {"link": "LinkAligned"}
     if kind == "LinkSameWithUnits":
-        ca, cb = da.get_component(da.id["w"]), db.get_component(db.id["w"])
-        ca.units, cb.units = "m", "cm"
-        a.info["units"]["w"], b.info["units"]["w"] = "m", "cm"
+        # the link captures both units when it is built, so a column that already sits in such a link keeps its unit
+        for h, u in ((a, "m"), (b, rng.choice(["cm", "km"]))):
+            if "w" not in h.info.setdefault("unit_link_columns", []):
+                h.data.get_component(h.data.id["w"]).units = u
+                h.info["units"]["w"] = u
+                h.info["unit_link_columns"].append("w")
         return LH.LinkSameWithUnits(da.id["w"], db.id["w"]), {"link": "LinkSameWithUnits"}
     raise ValueError(kind)
 
@@ -826,14 +843,14 @@ def build_session(rng, opts=None, workdir=None):
     base = common.rand_shape(rng, 3, 4, 2)
     for i in range(nds):
         r = rng.random()
-        if r < 0.35 or probe == "link:LinkAligned":
+        if r < 0.35:
             shapes.append(base)
         elif r < 0.7:
             shapes.append((rng.randint(2, 6),))
         else:
             shapes.append(common.rand_shape(rng, 3, 4, 2))
     collide = opts.get("label_collisions", True) and rng.random() < 0.25
-    force = [dict() for _ in range(nds)]
+    force = [dict(opts.get("force_data", {})) for _ in range(nds)]
     if want_leaf in ("cat_roi", "cat_2d", "cat_multirange", "category"):
         shapes[0] = (rng.randint(2, 6),)
         force[0]["cat"] = opts.get("cat_mode", True)
@@ -845,12 +862,8 @@ def build_session(rng, opts=None, workdir=None):
         shapes[1] = tuple(rng.randint(2, 4) for _ in shapes[0][:2])
         shapes[0] = shapes[0][:2]
         force[0]["coords"] = force[1]["coords"] = "wcs"
-    if want_link == "LinkAligned" or probe == "link:LinkAligned":
-        shapes[1] = shapes[0]
-    if probe == "order:derived_first_overall":
-        force[rng.randrange(nds)]["order_mode"] = "first_overall"
-        files = False
-        ses.include_data = True
+    if want_link == "LinkAligned":
+        shapes[pair[1]] = shapes[pair[0]]
     for i in range(nds):
         if files and (i == 0 or rng.random() < 0.5):
             ses.ds.append(load_file_dataset(rng, i, workdir, opts))
@@ -986,10 +999,7 @@ def build_session(rng, opts=None, workdir=None):
         desc["probe"] = probe
         pg = None
         po = opts
-        if probe == "state:parsed":
-            k = rng.randrange(nds)
-            pg = (k,) + make_state(rng, ses.ds[k], po, rng.choice([0, 1, 2]), k, True, "parsed")
-        elif probe == "state:slice_nested":
+        if probe == "state:slice_nested":
             k = 0
             kind = rng.choice(["slice", "pixel"])
             op = rng.choice(["invert", "and", "or", "xor", "multior"])
@@ -1037,11 +1047,9 @@ def build_session(rng, opts=None, workdir=None):
     return ses
 
 
-PROBES = ["state:parsed", "state:slice_nested", "state:slice_later_dataset", "state:floodfill_later_dataset",
-          "link:LinkAligned", "link:LinkSameWithUnits", "link:MultiLink", "link:ComponentLink_lambda", "roi:PointROI",
-          "meta:nested_unserialisable", "style:preferred_cmap", "order:derived_first_overall"]
-PROBES_NEED_TWO = ["state:slice_later_dataset", "state:floodfill_later_dataset", "link:LinkAligned",
-                   "link:LinkSameWithUnits", "link:MultiLink", "link:ComponentLink_lambda"]
+PROBES = ["state:slice_nested", "state:slice_later_dataset", "state:floodfill_later_dataset",
+          "link:MultiLink", "link:ComponentLink_lambda", "roi:PointROI", "meta:nested_unserialisable", "style:preferred_cmap"]
+PROBES_NEED_TWO = ["state:slice_later_dataset", "state:floodfill_later_dataset", "link:MultiLink", "link:ComponentLink_lambda"]
 
 
 RECIPE_CLASSES = {
@@ -1178,9 +1186,40 @@ def observe(dc, level="full"):
         for s in d.subsets:
             o["subsets"].append({"label": s.label, "style": style_obs(s.style), "mask": outcome(lambda: s.to_mask())})
         obs["data"].append(o)
+    obs["link_table"] = link_table(dc)
     for g in dc.subset_groups:
         obs["groups"].append({"label": g.label, "style": style_obs(g.style), "n_subsets": len(g.subsets)})
     return obs
+
+
+def link_table(dc):
+    """The external link table, flattened to component links: sorted list of (datasets connected, input labels,
+    output label) with datasets named by their position in the collection (-1: not a member).  Link helpers are
+    flattened to the component links they provide, so the table is comparable between the link-helper format
+    (DataCollection v4) and the flat component-link format (v1-v3); a JoinLink has no component links and is listed
+    by the datasets it joins."""
+    datasets = list(dc)
+
+    def owner(cid):
+        for i, d in enumerate(datasets):
+            if any(cid is c for c in d.components):
+                return i
+        return -1
+    rows = []
+    for link in dc.external_links:
+        if isinstance(link, LH.JoinLink):
+            ends = sorted(i for i, d in enumerate(datasets) if d is link.data1 or d is link.data2)
+            rows.append(("JoinLink", tuple(ends), (), ""))
+            continue
+        flat = list(link) if isinstance(link, LH.LinkCollection) else [link]
+        for cl in flat:
+            try:
+                frm, to = cl.get_from_ids(), cl.get_to_id()
+                ends = tuple(sorted({owner(c) for c in frm} | {owner(to)}))
+                rows.append(("link", ends, tuple(c.label for c in frm), to.label))
+            except Exception as exc:
+                rows.append(("unreadable:" + type(exc).__name__, (), (), ""))
+    return sorted(rows)
 
 
 def observe_destructive(dc):
@@ -1337,6 +1376,16 @@ def diff_obs(a, b, skip=()):
                 for k, v in gx["style"].items():
                     if gy["style"][k] != v:
                         out.append(("group_style", j, k, [v, gy["style"][k]]))
+    if "link_table" not in skip and a["link_table"] != b["link_table"]:
+        x, y = a["link_table"], b["link_table"]
+        if len(y) != len(x):
+            how = "more" if len(y) > len(x) else "fewer"
+        elif [r[1] for r in x] != [r[1] for r in y]:
+            how = "connects_other_datasets"
+        else:
+            how = "inputs_or_outputs_differ"
+        internal = sum(1 for r in y if len(r[1]) == 1 and r[1][0] >= 0)
+        out.append(("external_link_table", None, how, {"before": x, "after": y, "links_within_one_dataset_after": internal}))
     if "link_count" not in skip and a["n_external_links"] != b["n_external_links"]:
         out.append(("external_link_count", None, "fewer" if b["n_external_links"] < a["n_external_links"] else "more",
                     [a["n_external_links"], b["n_external_links"]]))
